@@ -9,6 +9,9 @@ pub fn all_sites() -> Vec<(&'static str, SiteFn)> {
     vec![
         ("ModeGen", site_mode as SiteFn),
         ("OpsGen", site_ops as SiteFn),
+        ("FieldGen", site_field as SiteFn),
+        ("FuncGen", site_func as SiteFn),
+        ("GlobGen", site_glob as SiteFn),
     ]
 }
 
@@ -134,6 +137,9 @@ pub fn string_table(block: &Block) -> (Vec<(String, String)>, bool) {
     let lowered = scr.contains("to_lowercase()") || scr.contains("to_ascii_lowercase()") || whole.contains(".to_lowercase();") || whole.contains(".to_ascii_lowercase();");
     let mut rows = vec![];
     for arm in &m.arms {
+        if !cfg_enabled(&arm.attrs) {
+            continue;
+        }
         if arm.guard.is_some() {
             panic!("string table: guarded arm");
         }
@@ -159,7 +165,7 @@ pub fn string_table(block: &Block) -> (Vec<(String, String)>, bool) {
 }
 
 fn emit_enum(o: &mut String, e: &ItemEnum, prefix: &str) -> Vec<String> {
-    let names: Vec<String> = e.variants.iter().map(|v| v.ident.to_string()).collect();
+    let names: Vec<String> = e.variants.iter().filter(|v| cfg_enabled(&v.attrs)).map(|v| v.ident.to_string()).collect();
     let ctors: Vec<String> = names.iter().map(|n| format!("{}{}", prefix, n)).collect();
     writeln!(o, "Inductive {} := {}.", e.ident, ctors.join(" | ")).unwrap();
     // decidable equality as a boolean
@@ -249,5 +255,207 @@ fn site_ops(src: &Path) -> String {
     }
     writeln!(o, "Inductive fbinop := FAdd | FSub | FMul | FDiv | FRem.").unwrap();
     writeln!(o, "Definition Arith_calc (a : ArithmeticOp) : fbinop :=\n  match a with {} end.", arms.join(" | ")).unwrap();
+    o
+}
+
+// ---------------- E07 / E08: field.rs, function.rs ----------------
+
+fn find_trait_fn<'a>(items: &'a [Item], trait_name: &str, ty: &str, name: &str) -> Option<&'a ImplItemFn> {
+    for it in items {
+        if let Item::Impl(im) = it {
+            if let Some((_, tp, _)) = &im.trait_ {
+                if last_seg(tp) == trait_name && qs(&im.self_ty).replace(' ', "") == ty {
+                    for ii in &im.items {
+                        if let ImplItem::Fn(f) = ii {
+                            if f.sig.ident == name {
+                                return Some(f);
+                            }
+                        }
+                    }
+                }
+            }
+        }
+    }
+    None
+}
+
+fn emit_members(o: &mut String, items: &[Item], ty: &str, prefix: &str, preds: &[&str]) {
+    use syn::visit::Visit;
+    let mut done: Vec<(String, Vec<String>, Vec<String>)> = vec![];
+    for p in preds {
+        let f = find_impl_fn(items, ty, p).unwrap_or_else(|| panic!("{}::{} not found", ty, p));
+        let mut mc = MemberCollector { variants: vec![], calls: vec![], enum_name: ty.to_string() };
+        mc.visit_block(&f.block);
+        done.push((p.to_string(), mc.variants, mc.calls));
+    }
+    for (p, vars, calls) in &done {
+        let mut all: Vec<String> = vars.clone();
+        for c in calls {
+            let other = done.iter().find(|d| &d.0 == c).unwrap_or_else(|| panic!("{} calls unknown predicate {}", p, c));
+            all.extend(other.1.clone());
+        }
+        writeln!(o, "Definition {}_{}_list : list {} := [{}].", ty, p, ty,
+            all.iter().map(|v| format!("{}{}", prefix, v)).collect::<Vec<_>>().join("; ")).unwrap();
+        writeln!(o, "Definition {}_{} (x : {}) : bool := existsb ({}_eqb x) {}_{}_list.", ty, p, ty, ty, ty, p).unwrap();
+    }
+}
+
+fn emit_names(o: &mut String, ty: &str, prefix: &str, names: &[String]) {
+    // Display = Debug = the variant name
+    writeln!(o, "Definition {}_name (x : {}) : str :=\n  match x with {} end.", ty, ty,
+        names.iter().map(|n| format!("| {}{} => {}", prefix, n, coq_str(n))).collect::<Vec<_>>().join(" ")).unwrap();
+}
+
+fn site_field(src: &Path) -> String {
+    let file = read_file(src, "field.rs");
+    let mut o = String::from(HDR_N);
+    o.push_str("(* from src/field.rs *)\n");
+    let e = find_enum(&file.items, "Field").expect("enum Field");
+    let names = emit_enum(&mut o, e, "F");
+    emit_names(&mut o, "Field", "F", &names);
+    let from = find_trait_fn(&file.items, "FromStr", "Field", "from_str").expect("Field::from_str");
+    let (rows, lowered) = string_table(&from.block);
+    emit_table(&mut o, "Field_from_str", "Field", "F", &rows, lowered);
+    emit_members(&mut o, &file.items, "Field", "F",
+        &["is_numeric_field", "is_datetime_field", "is_boolean_field", "is_available_for_archived_files", "is_colorized_field"]);
+    o
+}
+
+fn site_func(src: &Path) -> String {
+    let file = read_file(src, "function.rs");
+    let mut o = String::from(HDR_N);
+    o.push_str("(* from src/function.rs *)\n");
+    let e = find_enum(&file.items, "Function").expect("enum Function");
+    let names = emit_enum(&mut o, e, "Fn");
+    emit_names(&mut o, "Function", "Fn", &names);
+    let from = find_trait_fn(&file.items, "FromStr", "Function", "from_str").expect("Function::from_str");
+    let (rows, lowered) = string_table(&from.block);
+    emit_table(&mut o, "Function_from_str", "Function", "Fn", &rows, lowered);
+    emit_members(&mut o, &file.items, "Function", "Fn",
+        &["is_aggregate_function", "is_numeric_function", "is_boolean_function"]);
+    o
+}
+
+// ---------------- E15: util/glob.rs ----------------
+
+struct LitCollector {
+    strs: Vec<String>,
+}
+impl<'a> syn::visit::Visit<'a> for LitCollector {
+    fn visit_lit_str(&mut self, l: &'a LitStr) {
+        self.strs.push(l.value());
+    }
+    fn visit_macro(&mut self, m: &'a Macro) {
+        // string literals inside format!(..)
+        for t in m.tokens.clone() {
+            if let proc_macro2::TokenTree::Literal(l) = t {
+                if let Ok(Lit::Str(ls)) = syn::parse_str::<Lit>(&l.to_string()) {
+                    self.strs.push(ls.value());
+                }
+            }
+        }
+    }
+}
+
+struct MatchCollector<'a> {
+    matches: Vec<&'a ExprMatch>,
+}
+impl<'a> syn::visit::Visit<'a> for MatchCollector<'a> {
+    fn visit_expr_match(&mut self, m: &'a ExprMatch) {
+        self.matches.push(m);
+        syn::visit::visit_expr_match(self, m);
+    }
+}
+
+/// "(\\?|\\.|%|_)" -> the single characters it alternates over
+fn alternation_chars(re: &str) -> Vec<char> {
+    let inner = re.strip_prefix('(').and_then(|r| r.strip_suffix(')')).unwrap_or_else(|| panic!("alternation regex {:?} is not one group", re));
+    let mut out = vec![];
+    let cs: Vec<char> = inner.chars().collect();
+    let mut i = 0;
+    let mut expect_alt = true;
+    while i < cs.len() {
+        if !expect_alt {
+            if cs[i] != '|' { panic!("alternation regex {:?}: expected |", re); }
+            expect_alt = true;
+            i += 1;
+            continue;
+        }
+        if cs[i] == '\\' {
+            out.push(cs[i + 1]);
+            i += 2;
+        } else {
+            if "()[]{}.*+?^$|".contains(cs[i]) { panic!("alternation regex {:?}: unescaped metacharacter", re); }
+            out.push(cs[i]);
+            i += 1;
+        }
+        expect_alt = false;
+    }
+    out
+}
+
+fn glob_fn(o: &mut String, file: &File, fname: &str, prefix: &str) {
+    use syn::visit::Visit;
+    let f = find_fn(&file.items, fname).unwrap_or_else(|| panic!("{} not found", fname));
+    let mut lc = LitCollector { strs: vec![] };
+    lc.visit_block(&f.block);
+    let alt = lc.strs.iter().find(|s| s.starts_with('(') && s.contains('|')).unwrap_or_else(|| panic!("{}: alternation regex literal not found", fname)).clone();
+    let fmt = lc.strs.iter().find(|s| s.contains("{}")).unwrap_or_else(|| panic!("{}: format literal not found", fname)).clone();
+    let alts = alternation_chars(&alt);
+    let mut mc = MatchCollector { matches: vec![] };
+    mc.visit_block(&f.block);
+    let m = mc.matches.first().unwrap_or_else(|| panic!("{}: replacement match not found", fname));
+    let mut rows: Vec<(char, String)> = vec![];
+    for arm in &m.arms {
+        for p in pat_alts(&arm.pat) {
+            if let Pat::Wild(_) = p { continue; }
+            let lit = pat_lit_str(p).unwrap_or_else(|| panic!("{}: non-literal arm", fname));
+            let cs: Vec<char> = lit.chars().collect();
+            if cs.len() != 1 { panic!("{}: arm {:?} is not a single character", fname, lit); }
+            let body = match &*arm.body {
+                Expr::Lit(ExprLit { lit: Lit::Str(sl), .. }) => sl.value(),
+                e => panic!("{}: arm body {}", fname, qs(e)),
+            };
+            rows.push((cs[0], body));
+        }
+    }
+    // effective table: the characters the regex visits, with the text their arm yields
+    let mut eff = vec![];
+    let mut missing = vec![];
+    for c in &alts {
+        match rows.iter().find(|(k, _)| k == c) {
+            Some((_, v)) => eff.push(format!("({}%N, {})", *c as u32, coq_str(v))),
+            None => missing.push(format!("{}%N", *c as u32)),
+        }
+    }
+    writeln!(o, "Definition {}_table : list (N * str) :=\n  [ {} ].", prefix, eff.join(";\n    ")).unwrap();
+    writeln!(o, "Definition {}_error_chars : list N := [{}].  (* visited by the regex but without a match arm: error_exit *)", prefix, missing.join("; ")).unwrap();
+    let (pre, post) = fmt.split_once("{}").unwrap();
+    writeln!(o, "Definition {}_prefix : str := {}.\nDefinition {}_suffix : str := {}.", prefix, coq_str(pre), prefix, coq_str(post)).unwrap();
+}
+
+fn site_glob(src: &Path) -> String {
+    let file = read_file(src, "util/glob.rs");
+    let mut o = String::from(HDR_N);
+    o.push_str("(* from src/util/glob.rs *)\n");
+    glob_fn(&mut o, &file, "convert_glob_to_pattern", "glob");
+    glob_fn(&mut o, &file, "convert_like_to_pattern", "like");
+    // is_glob: the characters whose presence makes a value a glob
+    let f = find_fn(&file.items, "is_glob").expect("is_glob");
+    let body = qs(&f.block).replace(' ', "");
+    let mut chars = vec![];
+    let mut rest = body.as_str();
+    while let Some(i) = rest.find("s.contains(") {
+        let tail = &rest[i + 11..];
+        let q = tail.chars().next().unwrap();
+        let end = tail[1..].find(q).unwrap();
+        let lit = &tail[1..1 + end];
+        let cs: Vec<char> = lit.chars().collect();
+        if cs.len() != 1 { panic!("is_glob: literal {:?}", lit); }
+        chars.push(format!("{}%N", cs[0] as u32));
+        rest = &tail[1 + end..];
+    }
+    if !body.contains("||") && chars.len() > 1 { panic!("is_glob: not a disjunction"); }
+    writeln!(o, "Definition is_glob_chars : list N := [{}].", chars.join("; ")).unwrap();
     o
 }
